@@ -217,12 +217,61 @@ impl RSrc {
     }
 }
 
+/// The JSON document the items are embedded in.
+#[derive(Clone, Copy, Debug, PartialEq, Eq, PartialOrd, Ord, Serialize, Deserialize)]
+pub enum Shape {
+    /// the bare value: `"1.2.3"`
+    One,
+    /// `["1.2.3", ...]`
+    Many,
+    /// a derived struct with the value in a field: `{"name":"pkg","v":"1.2.3","tags":["a","b"]}`
+    Entry,
+    /// an internally tagged enum, `{"kind":"Pin","v":"1.2.3"}`: serde buffers the object into
+    /// `Content` and hands the value to `Deserialize` from that buffer
+    Tagged,
+    /// the values as JSON object keys: `{"1.2.3":0,"2.0.0":1}`
+    Keyed,
+}
+
+impl Shape {
+    pub fn single(&self) -> bool {
+        matches!(self, Shape::One | Shape::Entry | Shape::Tagged)
+    }
+    pub fn name(&self) -> &'static str {
+        match self {
+            Shape::One => "bare",
+            Shape::Many => "array",
+            Shape::Entry => "struct-field",
+            Shape::Tagged => "tagged-enum",
+            Shape::Keyed => "map-keys",
+        }
+    }
+}
+
 #[derive(Clone, Debug, PartialEq, Eq, Serialize, Deserialize)]
 pub enum ValueSpec {
-    Version(VSrc),
-    Range(RSrc),
-    VersionList(Vec<VSrc>),
-    RangeList(Vec<RSrc>),
+    Versions { shape: Shape, items: Vec<VSrc> },
+    Ranges { shape: Shape, items: Vec<RSrc> },
+}
+
+impl ValueSpec {
+    pub fn version(s: VSrc) -> Self {
+        ValueSpec::Versions { shape: Shape::One, items: vec![s] }
+    }
+    pub fn range(s: RSrc) -> Self {
+        ValueSpec::Ranges { shape: Shape::One, items: vec![s] }
+    }
+    pub fn shape(&self) -> Shape {
+        match self {
+            ValueSpec::Versions { shape, .. } | ValueSpec::Ranges { shape, .. } => *shape,
+        }
+    }
+    pub fn len(&self) -> usize {
+        match self {
+            ValueSpec::Versions { items, .. } => items.len(),
+            ValueSpec::Ranges { items, .. } => items.len(),
+        }
+    }
 }
 
 #[derive(Clone, Debug, PartialEq, Eq, Serialize, Deserialize)]
